@@ -126,8 +126,11 @@ Theorem sparse_receiver_equals : forall y w t b e2,
                (w', (K_OK, [b2z (all_close e2 (abs3 w (RS t)) (abs3 w b))])) /\
              Qw (sw w) (sw w') /\ dn w' = dn w /\ G t (sw w').
 Proof. exact step_sparse_equals. Qed.
-(* known finding C03-EQEPS0: for epsilon = 0 the answer DOES depend on the storage *)
-Theorem equals_eps0_refuted :
+(* why the hypothesis 0 < epsilon is there: for epsilon = 0 the strict test
+   |a-b| < epsilon fails for equal elements, and only the dense loop looks at
+   positions where both operands are zero (epsilon <= 0 is outside the
+   property's statement; not a finding) *)
+Theorem equals_needs_positive_epsilon :
   let w := run3 TFloat init3 [NewS [] [] 1; NewD [0]] in
   abs3 w (RS 0) = abs3 w (RD 0) /\
   snd (step3 TFloat w (VEquals (RS 0) (RS 0) 0)) = (K_OK, [1]) /\
@@ -178,6 +181,20 @@ Theorem storage_independence_division : forall y w k t a b a' b',
   abs3 (fst (step3 y w (VdivV (RD k) a b))) (RD k) =
   abs3 (fst (step3 y w (VdivV (RS t) a' b'))) (RS t).
 Proof. exact storage_independence_div_lemma. Qed.
+(* Reset: every element reads 0 afterwards, nothing else changes *)
+Theorem sparse_receiver_reset : forall y w t,
+  Good3 w t ->
+  let r := step3 y w (VReset (RS t)) in
+  ok_out r /\ dn (fst r) = dn w /\
+  abs3 (fst r) (RS t) = map (fun _ => 0) (abs3 w (RS t)) /\
+  (forall u, u <> t -> sabs (sw (fst r)) u = sabs (sw w) u).
+Proof. exact step_sparse_reset. Qed.
+Theorem dense_receiver_reset : forall y w k,
+  hasd w k ->
+  let r := step3 y w (VReset (RD k)) in
+  ok_out r /\ sw (fst r) = sw w /\ abs3 (fst r) (RD k) = map (fun _ => 0) (abs3 w (RD k)).
+Proof. exact step_dense_reset. Qed.
+
 (* ---- D. conversions keep every element ------------------------------------------
    AsDense<T>Vector(x), x dense or sparse in any coherent state: the new dense
    vector holds x's values, no existing value changes (the template types walk
@@ -218,19 +235,19 @@ Proof. vm_compute. repeat split; auto; try lia; discriminate. Qed.
    universally quantified theorem is proved about them here (the element-wise
    ones run the same loops as the vector operations above, on the values
    vector, but through the matrix joint iterators whose Ok() is value based).
-   What IS proved: the unchanged code violates the property in two places, and
-   the model exhibits both. *)
-(* known finding C03-MDOTM-STALE *)
-Theorem mdotm_stale_refuted :
+   The two defects found while building this check (sparse MdotM accumulating
+   onto the receiver's prior content; sparse matrix Equals answering false where
+   the receiver has no entry) were fixed in /repo (c117908, fc1915b); the model
+   follows HEAD and the witnesses are regression examples. *)
+Theorem mdotm_stale_fixed :
   let w := run4 TFloat init4 [NewSM [0] [7] 1 1; NewDM [7] 1 1; NewDM [2] 1 1; NewDM [3] 1 1] in
   mabs w (XS 0) = mabs w (XD 0) /\
   mabs (fst (step4 TFloat w (MdotM (XD 0) (XD 1) (XD 2)))) (XD 0) = [6] /\
-  mabs (fst (step4 TFloat w (MdotM (XS 0) (XD 1) (XD 2)))) (XS 0) = [13].
-Proof. exact mdotm_stale_refuted_lemma. Qed.
-(* known finding C03-MEQ-ABSENT *)
-Theorem mequals_absent_refuted :
+  mabs (fst (step4 TFloat w (MdotM (XS 0) (XD 1) (XD 2)))) (XS 0) = [6].
+Proof. exact mdotm_stale_fixed_lemma. Qed.
+Theorem mequals_absent_fixed :
   let w := run4 TFloat init4 [NewSM [] [] 1 1; NewDM [0] 1 1; NewDM [1] 1 1] in
   mabs w (XS 0) = mabs w (XD 0) /\
   snd (step4 TFloat w (MEquals (XD 0) (XD 1) 5)) = (K_OK, [1]) /\
-  snd (step4 TFloat w (MEquals (XS 0) (XD 1) 5)) = (K_OK, [0]).
-Proof. exact mequals_absent_refuted_lemma. Qed.
+  snd (step4 TFloat w (MEquals (XS 0) (XD 1) 5)) = (K_OK, [1]).
+Proof. exact mequals_absent_fixed_lemma. Qed.
